@@ -4,6 +4,7 @@ import (
 	"fmt"
 	"go/ast"
 	"go/types"
+	"regexp"
 	"strings"
 
 	"gvc/internal/contract"
@@ -25,18 +26,53 @@ type VerifyOpts struct {
 	DropAxioms []string
 }
 
+var litKeyRe = regexp.MustCompile(`^(.*)_lit([0-9]+)$`)
+
 // VerifyFunc generates the obligations of one function against its contract.
 func (e *Engine) VerifyFunc(key string, opts VerifyOpts) error {
-	fn := e.Funcs[key]
+	// "<function>_lit<k>": the k-th function literal of the function, verified as a
+	// function of its own whose free variables (the enclosing function's receiver,
+	// parameters) are arbitrary values
+	litOrd := 0
+	baseKey := key
+	if m := litKeyRe.FindStringSubmatch(key); m != nil {
+		baseKey = m[1]
+		fmt.Sscan(m[2], &litOrd)
+	}
+	fn := e.Funcs[baseKey]
 	if fn == nil {
-		return fmt.Errorf("no function %s in the loaded packages", key)
+		return fmt.Errorf("no function %s in the loaded packages", baseKey)
 	}
 	con := e.Contracts.Funcs[key]
 	if con == nil {
 		return fmt.Errorf("function %s has no contract", key)
 	}
 	if fn.Decl.Body == nil {
-		return fmt.Errorf("function %s has no body", key)
+		return fmt.Errorf("function %s has no body", baseKey)
+	}
+	body := fn.Decl.Body
+	var lit *ast.FuncLit
+	if litOrd > 0 {
+		n := 0
+		ast.Inspect(fn.Decl.Body, func(x ast.Node) bool {
+			if l, ok := x.(*ast.FuncLit); ok {
+				n++
+				if n == litOrd && lit == nil {
+					lit = l
+				}
+			}
+			return true
+		})
+		if lit == nil {
+			return fmt.Errorf("function %s has no function literal number %d", baseKey, litOrd)
+		}
+		body = lit.Body
+	}
+	if lit != nil {
+		// obligations of the literal carry its own key
+		cp := *fn
+		cp.Key = key
+		fn = &cp
 	}
 	e.cur, e.curCon = fn, con
 	defer func() { e.cur, e.curCon = nil, nil }()
@@ -70,13 +106,23 @@ func (e *Engine) VerifyFunc(key string, opts VerifyOpts) error {
 			return true
 		})
 	}
-	walk(fn.Decl.Body, false)
+	walk(body, false)
 	for k := range con.LoopInv {
 		if k < 1 || k > nl {
 			return fmt.Errorf("%s:%d: contract of %s names loop %d but the function has %d loops", con.File, con.Line, key, k, nl)
 		}
 	}
 	sig := fn.Obj.Type().(*types.Signature)
+	outerSig := sig
+	if lit != nil {
+		ls, ok := fn.Info.TypeOf(lit).(*types.Signature)
+		if !ok {
+			return fmt.Errorf("function literal %d of %s has no signature", litOrd, baseKey)
+		}
+		sig = ls
+		e.litSig = ls
+		defer func() { e.litSig = nil }()
+	}
 	// check the contract header against the real signature
 	if sig.Params().Len() != len(con.Params) {
 		return fmt.Errorf("%s:%d: contract header of %s has %d parameters, function has %d", con.File, con.Line, key, len(con.Params), sig.Params().Len())
@@ -95,6 +141,19 @@ func (e *Engine) VerifyFunc(key string, opts VerifyOpts) error {
 		t := e.Decls.Const("in!"+smt.Ident(key)+"!"+smt.Ident(hint), SortOf(v.Type()))
 		st.vars[v] = t
 		e.typeFacts(st, Val{t, v.Type()})
+	}
+	if lit != nil {
+		// the literal's free variables: the enclosing function's receiver and parameters
+		if r := outerSig.Recv(); r != nil {
+			bindVar(r, r.Name())
+			if _, ok := r.Type().Underlying().(*types.Pointer); ok {
+				st.Assume(smt.Neq(st.vars[r], NilV))
+			}
+		}
+		for i := 0; i < outerSig.Params().Len(); i++ {
+			p := outerSig.Params().At(i)
+			bindVar(p, fmt.Sprintf("cap_%s%d", p.Name(), i))
+		}
 	}
 	if r := sig.Recv(); r != nil {
 		bindVar(r, r.Name())
@@ -124,7 +183,7 @@ func (e *Engine) VerifyFunc(key string, opts VerifyOpts) error {
 		st.Assume(smt.Eq(smt.App(smt.Int, "s_len", st.named["$trace"].T), smt.IntLit(0)))
 	}
 	e.entry = st.Clone()
-	pos := fn.Decl.Body.Lbrace + 1
+	pos := body.Lbrace + 1
 	// package axioms (trusted lemmas, listed in evidence)
 	for _, ax := range e.Contracts.Axioms {
 		if ax.Pkg != keyPkg(key) {
@@ -175,11 +234,11 @@ func (e *Engine) VerifyFunc(key string, opts VerifyOpts) error {
 	}
 	e.entry = st.Clone()
 	e.Probe(st, "entry")
-	outs, err := e.execBlock(st, fn.Decl.Body.List)
+	outs, err := e.execBlock(st, body.List)
 	if err != nil {
 		return err
 	}
-	endPos := fn.Decl.Body.Rbrace
+	endPos := body.Rbrace
 	for _, o := range outs {
 		if o.kind != oReturn && o.kind != oFall {
 			return fmt.Errorf("%s: break/continue escaped the function body", key)
